@@ -153,7 +153,45 @@ def continue_in_this_process(vs, ls, ops):
     return outs
 
 
+def split_case(case):
+    ops = case["ops"]
+    cut = (len(ops) * (1 + case["nv"] % 3)) // 4
+    return [o for o in ops[:cut] if o[0] != "flag"], [o for o in ops[cut:] if o[0] != "flag"]
+
+
+def check_fresh(case, both=True):
+    """Replay form of the extra phase: the suffix (and, if `both`, the prefix too) in its own fresh interpreter."""
+    from eglib import fresh
+
+    prefix, suffix = split_case(case)
+    a_outs, *_ = run_history(case, flagged=False)
+    nq_prefix = sum(1 for o in case["ops"][: (len(case["ops"]) * (1 + case["nv"] % 3)) // 4] if o[0] == "query")
+    exp = a_outs[nq_prefix:]
+    if both:
+        a = fresh.run_jobs([dict(blob=None, flag=True, want=["c05prefix"], case=case, ops=prefix)])[0]
+    else:
+        try:
+            a = dict(error=None, blob=prefix_in_this_process(case, prefix))
+        except Exception as e:  # noqa
+            a = dict(error=repr(e))
+    if a["error"]:
+        return dict(nt=False, classes=["fresh:prefix-not-picklable"])
+    r = fresh.run_jobs([dict(blob=a["blob"], flag=True, loader="pickle", want=["c05suffix"], ops=suffix)])[0]
+    if r["error"]:
+        raise Violation("fresh-interpreter-raised:" + r["error"].split(":")[0], r["error"])
+    got = r["outs"]
+    if len(got) != len(exp):
+        raise Violation("fresh-interpreter-answer-differs", f"{len(got)} query points in the fresh interpreter, {len(exp)} expected")
+    for q, (e_, g_) in enumerate(zip(exp, got)):
+        d = battery.first_difference(e_, g_)
+        if d:
+            raise Violation("fresh-interpreter-answer-differs", f"suffix query point {q}: {d}")
+    return dict(nt=len(exp) >= 2 and exp[0] != exp[-1], classes=["fresh:both-halves"])
+
+
 def check_case(case):
+    if case.get("fresh"):
+        return check_fresh(case["case"], both=(case["fresh"] != "batch"))
     a_outs, _, between, a_snap, _, _ = run_history(case, flagged=False)
     b_outs, b_flags, _, b_snap, _, _ = run_history(case, flagged=True)
     if a_snap != b_snap:
@@ -206,7 +244,7 @@ def extra_phase(tier, seed, deadline):
     from edgegraph.structure import Vertex
     from eglib import driver, fresh
 
-    n = 150 if tier == "quick" else 3000
+    n = 200 if tier == "quick" else 3000
     cases = []
 
     @hypothesis.seed(driver.shard_seed(seed, ID + "-fresh", 0))
@@ -245,10 +283,10 @@ def extra_phase(tier, seed, deadline):
     evaluations = 0
     errors = []
 
-    def judge(case, exp, r):
+    def judge(case, exp, r, proto=True):
         nonlocal evaluations
         evaluations += 1
-        wrap = {"_noreplay": True, "fresh": True, "case": case}
+        wrap = {"fresh": proto, "case": case}
         if r["error"]:
             failures.setdefault("fresh-interpreter-raised:" + r["error"].split(":")[0], (wrap, r["error"]))
             return
@@ -269,7 +307,7 @@ def extra_phase(tier, seed, deadline):
     # per-process state (counters, module-level memos) starts from scratch on both sides
     from concurrent.futures import ThreadPoolExecutor
 
-    m = 24 if tier == "quick" else 400
+    m = 96 if tier == "quick" else 600
 
     def both_fresh(k):
         case = kept[k]
@@ -301,7 +339,7 @@ def extra_phase(tier, seed, deadline):
             errors.append(f"fresh interpreter batch failed: {e}")
             break
         for k, r in enumerate(res):
-            judge(kept[lo + k], expect[lo + k], r)
+            judge(kept[lo + k], expect[lo + k], r, "batch")
     return dict(
         evaluations=evaluations, skipped_budget=0, nt=nt, nt_enum=0, classes=collections.Counter({"fresh-interpreter-world": evaluations}),
         excluded=0, samples=[], failures=failures, harness_errors=errors, by_phase=collections.Counter({"fresh-interpreter": evaluations}),
